@@ -29,6 +29,7 @@ RULE = ('cases = (a) a list of 1-6 paths (all segment mixes, several subpaths) w
         'with wsvg to file names with spaces / non-ASCII / not-yet-existing directories and read back by three readers; (b) Document '
         'histories load -> add_group/add_path (root, nested names, element) -> paths() -> save -> reload; distinct by spec; non-trivial '
         'if a read-back comparison was made')
+RULE += "; the same attribute dictionaries passed to two consecutive wsvg calls, add_path with a dictionary carrying another path's d, SaxDocument load -> save -> reload"
 ASSUMPTIONS = ['path equality is C01\'s absolute-form equivalence (== except radii of auto-enlarged arcs, 1e-12)',
                'zero-length Lines and arcs whose squares leave the double range are not generated (C01)']
 TIERS = {
